@@ -27,6 +27,18 @@ CLAIMS = {
          "with different trailing bytes.",
          COMMON_NOTE + "the pinned tree violated this property (pointer-cast read of the tag); repaired by fix commit 45f1958, see known_findings.json.",
          "Lean 4 theorem + differential correspondence (value-level, incl. neighbour-byte repetition)"),
+ "C05": ("Theorems hash_correct (the hash body feeds, for enums, the variant index and then every non-ignored field in declaration order through "
+         "its method or own Hash — for every leaf behaviour, i.e. every hasher), agree_feeds_equal, different_variant_feeds_differ, "
+         "feedFields_differ (injective under the explicit prefix-freeness hypothesis on hashed positions), eq_implies_same_feed_fields. "
+         "Tie: real macro + rustc with a recording Hasher that logs every write_* call.",
+         COMMON_NOTE + "'whose own hashing distinguishes them' is formalised as prefix-freeness of the hashed positions' feed functions (explicit hypothesis, satisfiable: fixed-width writes).",
+         "Lean 4 theorem + differential correspondence through a recording hasher"),
+ "C07": ("Theorems clone_correct, cloneFrom_correct (same-variant path rewrites every field from the source's field, other path assigns a fresh "
+         "clone), cloneFrom_is_clone_of_source (for every prior a, under the Clone::clone_from contract of the leaves), copy_clone_is_bitwise. "
+         "Tie: real macro + rustc with an instrumented leaf type whose clone / clone_from are observably different and counted; all ordered "
+         "(a, b) pairs incl. cross-variant.",
+         COMMON_NOTE + "destination operands of one clone_from body are disjoint &mut borrows (each reads the original field); Copy-ness itself (that the Copy impl is emitted and accepted) is checked under C01/C11.",
+         "Lean 4 theorem + differential correspondence with instrumented leaves"),
 }
 
 ENGINES = [
